@@ -276,6 +276,8 @@ CONS_CASE = st.fixed_dictionaries({
     "container": st.sampled_from(["TractList", "TRSList"]), "path": st.sampled_from(PATHS),
     "initial": st.lists(ELEM, min_size=0, max_size=3), "good": st.lists(st.tuples(st.sampled_from(["tract", "str", "trs"]), ELEM), min_size=0, max_size=5),
     "bad": st.sampled_from([None, None] + BAD), "pos": st.integers(0, 5), "nest": st.integers(1, 3), "wrap": st.sampled_from(["list", "tuple", "generator"]),
+    # from_multiple: hand some of the supplied elements over inside a TractList / a list of the same class / a PLSSDesc-like container
+    "pack": st.sampled_from(["none", "none", "tractlist", "samelist", "tractlist_nested"]),
 })
 
 
@@ -356,7 +358,16 @@ def oracle_construct(c):
                 return []
             cont[0] = objs[0]
         elif path == "from_multiple":
-            result = cls.from_multiple(*objs)
+            args = list(objs)
+            pack = c.get("pack", "none")
+            if pack != "none" and not has_bad and len(args) >= 2:
+                head, tail = args[:2], args[2:]
+                if pack in ("tractlist", "tractlist_nested") and all(isinstance(x, Tract) for x in head):
+                    packed = TractList(head)
+                    args = [[packed] if pack == "tractlist_nested" else packed] + tail
+                elif pack == "samelist":
+                    args = [cls(head)] + tail
+            result = cls.from_multiple(*args)
             n0 = 0
         elif path == "from_multiple_nested":
             nested = list(objs)
@@ -407,7 +418,7 @@ def oracle_construct(c):
 
 
 def cons_classes(c):
-    return [f"path={c['path']}", f"container={c['container']}", f"bad={c['bad']}"]
+    return [f"path={c['path']}", f"container={c['container']}", f"bad={c['bad']}", f"pack={c.get('pack')}"]
 
 
 SUBS = [
@@ -420,5 +431,5 @@ SUBS = [
         essential=("nested", "flat", "into", "nattrs=2", "nattrs=3", "container=TRSList", "several_groups")),
     Sub("construct", oracle_construct, strategy=lambda tier: CONS_CASE, nontrivial=lambda c: c["bad"] is not None, classes=cons_classes, render=lambda c: c,
         n={"quick": 1000, "thorough": 12000}, shards={"quick": 4, "thorough": 16},
-        essential=tuple(f"path={p}" for p in PATHS) + tuple(f"bad={b}" for b in BAD)),
+        essential=tuple(f"path={p}" for p in PATHS) + tuple(f"bad={b}" for b in BAD) + ("pack=tractlist", "pack=samelist")),
 ]
